@@ -332,7 +332,7 @@ def do_free(ctx, inst, reps):
         res, tr = pipeline.freerun(inst, progs, d, seed=ctx.seed)
         hung = [x for x in res if x["outcome"] != "finished"]
         slow = [x for x in res if x.get("stop_ms", 0) >= 2500]
-        v = tracecheck.validate(inst, tr, d, timeout=3000 if ctx.tier != "quick" else 600)
+        v = tracecheck.validate_parallel(inst, tr, d, timeout=3000 if ctx.tier != "quick" else 600)
         ctx.frees.append({"instance": inst["name"], "runs": len(res), "events": sum(x["events"] for x in res),
                           "accepted": v.get("accepted"), "validator_states": v.get("states"), "hung": len(hung)})
         if v.get("error"):
